@@ -71,22 +71,28 @@ structure Match where
   rest : Bytes    -- input after the match
   deriving Repr, DecidableEq
 
+/-- `</([\w-]+)>` at the start of the text: (closing name, rest of the input) -/
+def closeTail : Bytes → Option (Bytes × Bytes)
+  | a :: b :: r2 =>
+    if a == LTc && b == SLc then
+      match r2.takeWhile isWordDash, r2.dropWhile isWordDash with
+      | c :: cn, g :: rest => if g == GTc then some (c :: cn, rest) else none
+      | _, _ => none
+    else none
+  | _ => none
+
+/-- `\s*</([\w-]+)>` at the start of `r1`: (white space, closing name, rest of the input) -/
+def closeAt (r1 : Bytes) : Option (Bytes × Bytes × Bytes) :=
+  (closeTail (r1.dropWhile isWs)).map fun (cn, rest) => (r1.takeWhile isWs, cn, rest)
+
 /-- try to match the pattern at a `<` whose following text is `s` -/
 def matchAt (s : Bytes) : Option Match :=
   match spanTag s with
   | none => none
   | some (tag, r1) =>
-    match r1.dropWhile isWs with
-    | a :: b :: r2 =>
-      if a == LTc && b == SLc then
-        match r2.takeWhile isWordDash, r2.dropWhile isWordDash with
-        | c :: cn, g :: rest =>
-          if g == GTc then
-            (splitTag tag).map fun (n, a) => ⟨n, a, r1.takeWhile isWs, c :: cn, rest⟩
-          else none
-        | _, _ => none
-      else none
-    | _ => none
+    match closeAt r1 with
+    | none => none
+    | some (ws, cn, rest) => (splitTag tag).map fun (n, a) => ⟨n, a, ws, cn, rest⟩
 
 /-- the bytes a match covers (including the leading `<`) -/
 def Match.full (m : Match) : Bytes :=
